@@ -15,6 +15,7 @@ import (
 	"sort"
 	"strings"
 
+	"golang.org/x/tools/go/packages"
 	"golang.org/x/tools/go/ssa"
 )
 
@@ -153,6 +154,12 @@ func extractEscTable(c *Ctx, pkgRel, fnName string) (*escTable, string) {
 		return true
 	})
 	if sw == nil {
+		// the table in a function of its own: h(byte) (byte, bool), a switch of "return CONST, true"
+		// rows with "return _, false" as default; the caller writes what comes back, and on
+		// "not ok" the scanned byte itself
+		if t2 := extractEscTableViaHelper(c, p, d, t); t2 != nil {
+			return t2, ""
+		}
 		return nil, fnName + ": no switch over a byte/rune found (table written in a form the extractor does not know)"
 	}
 	tagName := types.ExprString(sw.Tag)
@@ -1472,4 +1479,112 @@ func c01CSVWholeFieldWrites(c *Ctx, r *Report) {
 		}
 	}
 	r.Floor("R01.3f", "writes of field text in the CSV writer", n, 2)
+}
+
+// extractEscTableViaHelper: see extractEscTable.
+func extractEscTableViaHelper(c *Ctx, p *packages.Package, d *ast.FuncDecl, t *escTable) *escTable {
+	info := p.TypesInfo
+	var hd *ast.FuncDecl
+	var okName string
+	ast.Inspect(d.Body, func(n ast.Node) bool {
+		as, ok := n.(*ast.AssignStmt)
+		if !ok || len(as.Lhs) != 2 || len(as.Rhs) != 1 {
+			return true
+		}
+		call, ok := as.Rhs[0].(*ast.CallExpr)
+		if !ok {
+			return true
+		}
+		fo := resolveFuncExpr(info, call.Fun)
+		if fo == nil || fo.Pkg() != p.Types {
+			return true
+		}
+		sig := fo.Type().(*types.Signature)
+		if sig.Params().Len() != 1 || sig.Results().Len() != 2 {
+			return true
+		}
+		if b, ok := sig.Results().At(1).Type().Underlying().(*types.Basic); !ok || b.Kind() != types.Bool {
+			return true
+		}
+		if hdecl := c.Decl(fo); hdecl != nil && hdecl.Body != nil {
+			hd = hdecl
+			if id, ok := as.Lhs[1].(*ast.Ident); ok {
+				okName = id.Name
+			}
+		}
+		return true
+	})
+	if hd == nil || okName == "" {
+		return nil
+	}
+	var sw *ast.SwitchStmt
+	for _, st := range hd.Body.List {
+		if x, ok := st.(*ast.SwitchStmt); ok && x.Tag != nil {
+			sw = x
+		}
+	}
+	if sw == nil {
+		return nil
+	}
+	for _, cl := range sw.Body.List {
+		cc := cl.(*ast.CaseClause)
+		var ret *ast.ReturnStmt
+		for _, st := range cc.Body {
+			if r, ok := st.(*ast.ReturnStmt); ok && len(r.Results) == 2 {
+				ret = r
+			}
+		}
+		if ret == nil {
+			return nil
+		}
+		found := types.ExprString(ret.Results[1]) == "true"
+		if cc.List == nil {
+			if found {
+				t.defOpaque = "the helper's default answers 'found'"
+			}
+			continue
+		}
+		for _, e := range cc.List {
+			k, ok := constIntOf(info, e)
+			if !ok {
+				return nil
+			}
+			row := &escRow{}
+			if !found {
+				continue // a listed letter answered 'not found' is the default
+			}
+			if v, ok := constIntOf(info, ret.Results[0]); ok {
+				row.out = []byte{byte(v)}
+			} else {
+				row.opaque = "the helper returns " + types.ExprString(ret.Results[0])
+			}
+			t.rows[k] = row
+		}
+	}
+	// the caller's "not ok" branch writes the scanned byte back
+	ast.Inspect(d.Body, func(n ast.Node) bool {
+		ifs, ok := n.(*ast.IfStmt)
+		if !ok {
+			return true
+		}
+		if types.ExprString(ifs.Cond) != "!"+okName {
+			return true
+		}
+		for _, st := range ifs.Body.List {
+			if out, arg, isW := writeCallBytes(info, st); isW && out == nil && arg != nil {
+				if id, ok := arg.(*ast.Ident); ok {
+					if tv, ok := info.Types[id]; ok {
+						if b, ok := tv.Type.Underlying().(*types.Basic); ok && b.Info()&types.IsInteger != 0 {
+							t.defIdentity = true
+						}
+					}
+				}
+			}
+		}
+		return true
+	})
+	if !t.defIdentity && t.defOpaque == "" {
+		t.defOpaque = "with the table in a helper, no 'not ok' branch that writes the scanned byte back was found"
+	}
+	return t
 }
